@@ -28,7 +28,12 @@ func TestVerifRingStore(t *testing.T) {
 		vdrainWrites(s)
 		b := s.stripedBuffer[0]
 		v := &vring{}
-		fn := func(pc int) { v.yield(pc) }
+		fn := func(pc int) {
+			if pc > 30 { // schedule points of other hooks (H4 secondary worker, H8 shard lock): not ring steps
+				return
+			}
+			v.yield(pc)
+		}
 		VerifYield.Store(&fn)
 		nth := 3 + r.intn(4)
 		park := 0
